@@ -369,6 +369,14 @@ func checkC07(c *Ctx) {
 	for _, fo := range [][2]string{{"cmd/collapsebrlen.go", "CollapseShortBranches"}, {"cmd/collapsedepth.go", "CollapseTopoDepth"}, {"cmd/collapsesupport.go", "CollapseLowSupport"}, {"cmd/resolve.go", "Resolve"}} {
 		c.cmdApplies("CMD-APPLIES", fo[0], []string{fo[1]}, "contracts exactly the non-root inner branches selected")
 	}
+	c.Decides("NO-RENAME: no call path from RemoveEdges, the Collapse* operations, Resolve or resolveRecur reaches Node.SetName or writes a node's name")
+	c.noRename("NO-RENAME", []*FuncInfo{c.Func("tree", "Tree", "RemoveEdges"), c.Func("tree", "Tree", "CollapseShortBranches"), c.Func("tree", "Tree", "CollapseLowSupport"), c.Func("tree", "Tree", "CollapseTopoDepth"), c.Func("tree", "Tree", "Resolve"), c.Func("tree", "Tree", "resolveRecur")}, "all names untouched")
+	c.Floor("NO-RENAME", 6)
+	c.Decides("CMD-REACHES: in the collapse and resolve commands nothing between the head of the loop over the input trees and the call of the operation leaves the iteration except under an error test")
+	for _, fo := range [][2]string{{"cmd/collapsebrlen.go", "CollapseShortBranches"}, {"cmd/collapsesupport.go", "CollapseLowSupport"}, {"cmd/collapsedepth.go", "CollapseTopoDepth"}, {"cmd/resolve.go", "Resolve"}} {
+		c.cmdReaches("CMD-REACHES", fo[0], []string{fo[1]}, "removes exactly the inner branches that satisfy the documented criterion / yields a fully binary tree")
+	}
+	c.Floor("CMD-REACHES", 4)
 	c.Floor("CMD-APPLIES", 4)
 	c.Floor("RESOLVE-GUARD", 1)
 	c.Decides("DESCENT: resolveRecur descends into every neighbour other than the one it came from (no further condition on the descent): every multifurcation is reached, wherever it sits")
